@@ -21,11 +21,20 @@ REPO = cxxast.REPO
 _INDEX_CACHE = {}
 
 
-def get_index(tu_name, tu_text):
-    key = (tu_name, hashlib.sha256(tu_text.encode()).hexdigest())
+def get_index(tu_name, tu_text, filters=("opentelemetry",)):
+    key = (tu_name, hashlib.sha256(tu_text.encode()).hexdigest(), tuple(filters))
     if key not in _INDEX_CACHE:
-        roots = cxxast.dump_tu(tu_name, tu_text)
-        _INDEX_CACHE[key] = cxxast.Index(roots)
+        roots = cxxast.dump_tu(tu_name, tu_text, filters=filters)
+        ix = cxxast.Index(roots)
+        # file-scope namespace aliases (namespace trace_api = opentelemetry::trace;) live outside the dumped namespace
+        for inc in re.findall(r'#include "(/[^"]+)"', tu_text):
+            try:
+                src = open(inc).read()
+            except OSError:
+                continue
+            for al, tgt in re.findall(r"namespace\s+(\w+)\s*=\s*(?:::)?opentelemetry::([\w:]+)\s*;", src):
+                ix.ns_alias.setdefault(al, tgt)
+        _INDEX_CACHE[key] = ix
     return _INDEX_CACHE[key]
 
 
@@ -42,7 +51,7 @@ class Proof:
                  tier="quick", level="deductive", bound_note="", timeout=900, property_level=(".*",),
                  contracts=None, extra_c="", complete_unwind_note="", loop_contracts=True, configure=None,
                  expect_obligations=(), object_bits=None, mem_gb=24, refute=None, replay=None, unwindset=(),
-                 desc=""):
+                 desc="", check_flags=()):
         self.name, self.roots, self.enforce, self.replace = name, list(roots), enforce, list(replace)
         self.harness, self.solver, self.unwind, self.tier, self.level = harness, solver, unwind, tier, level
         self.bound_note, self.timeout, self.property_level = bound_note, timeout, tuple(property_level)
@@ -58,6 +67,7 @@ class Proof:
         self.replay = replay
         self.unwindset = tuple(unwindset)
         self.desc = desc
+        self.check_flags = tuple(check_flags)
 
 
 class PropertyModule:
@@ -165,7 +175,7 @@ def run_one(mod, proof, ix, workdir):
         res = P.prove(workdir, proof.name, text, entry, enforce=proof.enforce, replace=replace,
                       loop_contracts=proof.loop_contracts, solver=proof.solver, unwind=proof.unwind,
                       timeout=proof.timeout, object_bits=proof.object_bits, mem_gb=proof.mem_gb,
-                      unwindset=proof.unwindset)
+                      unwindset=proof.unwindset, extra_checks=proof.check_flags)
         out["status"] = "ok"
         out["result"] = res
         out["c_file"] = os.path.join(workdir, proof.name + ".c")
